@@ -11,16 +11,23 @@ FILES = ["f.txt", "g.txt", "d/f.txt", "d/g.txt"]     # colliding basenames in tw
 DIRS = ["d"]
 LINKS = {"l.txt": "f.txt"}                           # symbolic link -> file it points to
 TARGETS = FILES + DIRS + list(LINKS)
+# symbolic links that are ENTRIES of a directory (never hash targets themselves): link path ->
+# (file it points to, link text).  One points out of the directory, one to a sibling.  Which of
+# them exist is part of a case ("links"); they are created up front and never removed or replaced.
+DIRLINKS = {"d/lk.txt": ("g.txt", "../g.txt"), "d/li.txt": ("d/f.txt", "f.txt")}
 CONTENTS = ["AAAA", "BBBB", "CCCC", "DD", "EEEEEEEE", ""]   # 0..2 same size, 3..5 other sizes
 ABS_MTIMES = [1_600_000_000_000_000_000, 1_600_000_000_000_001_000, 1_700_000_123_456_789_012]
 
 
 class FsModel:
     """path -> content for the regular files; a directory's content is the set of (name, content)
-    of the files below it (which is what a content hash of a directory may depend on)."""
+    of the files below it (which is what a content hash of a directory may depend on).  A symbolic
+    link below a directory counts as an entry with the content of the file it points to (None while
+    it dangles)."""
 
-    def __init__(self, init: dict):
+    def __init__(self, init: dict, links=()):
         self.files = dict(init)
+        self.links = {ln: DIRLINKS[ln][0] for ln in links}
 
     def exists(self, t):
         if t in DIRS:
@@ -32,7 +39,10 @@ class FsModel:
     def content(self, t):
         if t in DIRS:
             pre = t + "/"
-            return tuple(sorted((p[len(pre):], c) for p, c in self.files.items() if p.startswith(pre)))
+            ents = [(p[len(pre):], c) for p, c in self.files.items() if p.startswith(pre)]
+            ents += [(ln[len(pre):], self.files.get(tgt)) for ln, tgt in self.links.items()
+                     if ln.startswith(pre)]
+            return tuple(sorted(ents, key=lambda e: e[0]))
         return self.files[LINKS.get(t, t)]
 
     def write(self, p, c):
@@ -47,7 +57,13 @@ class FsModel:
     def affected(self, p):
         """targets whose content can change when file p changes"""
         return ([p] + [d for d in DIRS if p.startswith(d + "/")]
-                + [ln for ln, tgt in LINKS.items() if tgt == p])
+                + [ln for ln, tgt in LINKS.items() if tgt == p]
+                + self.via_link(p))
+
+    def via_link(self, p):
+        """directories that see file p ONLY through a symbolic link below them"""
+        return [d for d in DIRS if not p.startswith(d + "/")
+                and any(tgt == p and ln.startswith(d + "/") for ln, tgt in self.links.items())]
 
 
 class KeyCacheModel:
